@@ -90,7 +90,7 @@ manifest = {
    "guard": "cargo feature `verif-hooks` on the async-graphql crate",
    "enable": "the harness depends on async-graphql by path (/repo); checks that need the work counter enable the feature `verif-hooks`; every ./check run rebuilds from the current tree",
    "baseline_off_cmd": "cd /repo && cargo test --workspace --no-fail-fast --offline",
-   "source_commits": [],
+   "source_commits": ["14a5ced"],
    "add_only": True,
  },
  "engines": [
